@@ -150,3 +150,59 @@ func (p *c20) rejectedNativeUpdate(x *res, adapter string) {
 		}
 	}
 }
+
+// missingUpdaterAndConditions: with the native interpreter active an update no updater is registered for is an
+// unsupported feature - whatever its condition says (a condition that is false does not turn the answer into
+// "conditional check failed") - and the item is untouched. With an updater registered, a false condition refuses
+// the request before the updater runs.
+func (p *c20) missingUpdaterAndConditions(x *res, adapter string) {
+	spec := mon.SpecHashOnly("tbu")
+	stored := val.Item{"h": val.Str("k"), "a": val.Str("1")}
+	for _, registered := range []bool{false, true} {
+		for _, present := range []bool{true, false} {
+			for _, cond := range []string{"", "attribute_exists(nosuch)", "attribute_exists(h)", "attribute_not_exists(h)"} {
+				cl := adapt.New(adapter)
+				nc := nativeOf(cl)
+				native := interpreter.NewNativeInterpreter()
+				ran := 0
+				if registered {
+					native.AddUpdater(spec.Name, "SET a = :v", func(item map[string]*mtypes.Item, _ map[string]*mtypes.Item) {
+						ran++
+						s := "updated"
+						item["a"] = &mtypes.Item{S: &s}
+					})
+				}
+				nc.setInterp(native)
+				nc.activate()
+				cl.Do(createOp(spec))
+				key := val.Item{"h": val.Str("k")}
+				if present {
+					cl.Do(adapt.Op{Kind: adapt.OpPut, Table: spec.Name, Item: stored})
+				}
+				condTrue := cond == "" || (cond == "attribute_exists(h)" && present) || (cond == "attribute_not_exists(h)" && !present)
+				got := cl.Do(adapt.Op{Kind: adapt.OpUpdate, Table: spec.Name, Key: key, Update: "SET a = :v", Values: val.Item{":v": val.Str("z")}, Cond: cond})
+				after := cl.Do(adapt.Op{Kind: adapt.OpGet, Table: spec.Name, Key: key})
+				x.r.Evals += 2
+				x.fp(true, "%s|missing-updater|%v|%v|%s", adapter, registered, present, cond)
+				x.r.Counters["updates_with_and_without_updater_under_conditions"]++
+				wit := map[string]interface{}{"adapter": adapter, "updater_registered": registered, "item_present": present, "condition": cond, "outcome": got, "item_after": after.Item}
+				var before val.Item
+				if present {
+					before = stored
+				}
+				switch {
+				case got.Class == adapt.ClsRuntime:
+					x.viol("runtime-panic", got.Site, fmt.Sprintf("[%s] native update (registered=%v, condition %q): panic %s", adapter, registered, cond, got.Msg), wit)
+				case !registered && got.Class != adapt.ClsUnsupported:
+					x.viol("missing-updater-not-unsupported", got.Class+"/condition", fmt.Sprintf("[%s] update without registered updater in native mode, condition %q (true: %v), item present: %v: class %s, want the unsupported-feature error", adapter, cond, condTrue, present, got.Class), wit)
+				case !registered && !val.ItemsEqual(after.Item, before):
+					x.viol("failed-update-touched-item", "update/condition", fmt.Sprintf("[%s] the unsupported update changed the item to %s", adapter, after.Item.Canon()), wit)
+				case registered && !condTrue && (got.Class != adapt.ClsCondFailed || ran != 0 || !val.ItemsEqual(after.Item, before)):
+					x.viol("verdict-not-used", "update/false-condition", fmt.Sprintf("[%s] native update with the false condition %q: class %s, updater ran %d times, item %s", adapter, cond, got.Class, ran, after.Item.Canon()), wit)
+				case registered && condTrue && (got.Class != adapt.ClsOK || ran != 1):
+					x.viol("mutation-not-used", "update/true-condition", fmt.Sprintf("[%s] native update with the true condition %q: class %s, updater ran %d times", adapter, cond, got.Class, ran), wit)
+				}
+			}
+		}
+	}
+}
